@@ -109,6 +109,9 @@ def build_context(recipe):
     if kind == 'K0':
         from pylatexenc.latexwalker import get_default_latex_context_db
         return get_default_latex_context_db()
+    if kind == 'K3':
+        from pylatexenc.latex2text import get_default_latex_context_db as l2t_db
+        return l2t_db()
     if kind == 'K1':
         return build_k1(False)
     if kind == 'K2':
@@ -137,7 +140,9 @@ def base_kind(recipe):
 def gen_derivation(rng, parent_recipe):
     if rng.random() < 0.5:
         bk = base_kind(parent_recipe)
-        if bk == 'K0':
+        if bk == 'K3':
+            kw = rng.choice([{'keep_which': ['macros', 'environments']}, {}, {'exclude_categories': ['latex-base']}])
+        elif bk == 'K0':
             kw = rng.choice([{'exclude_categories': ['natbib']}, {'keep_categories': ['latex-base', 'verbatim']},
                              {'keep_which': ['macros', 'environments']}])
         else:
@@ -159,6 +164,8 @@ class DocGen(object):
     def __init__(self, rng, recipe):
         self.rng = rng
         self.kind = base_kind(recipe)
+        if self.kind in ('K3', 'KD'):
+            self.kind = 'K0'
         self.extended = []
         r = recipe
         while r[0] in ('filtered', 'extended'):
